@@ -45,6 +45,30 @@ CONTRACTS = {
             'pos_is_midpoint': 'implies(result == 1, And(*[2*con.pos[k] == (pos1[k] + size1[0]*con.normal[k]) + (pos1[k] + (size1[0] + con.dist)*con.normal[k]) for k in range(3)]))',
         }, 'no_error': True},
     'c13_frame': dict(frame, params={'f': M9}),
+    # sphere (geom 1) against capsule (geom 2): the capsule is the set of points within size2[0] of the segment
+    # pos2 + t*axis, |t| <= size2[1]; the collider must use the point of that segment nearest to the sphere centre
+    'mju_clip': {'requires': {}, 'assigns': [], 'pure': True, 'ensures': {'clip': 'result == (min if x < min else (max if x > max else x))'}},
+    'mjraw_SphereCapsule': {
+        'params': P,
+        'defs': {'AX': 'lambda k: mat2[2 + 3*k]', 'LEN': 'size2[1]',
+                 'PRJ': 'AX(0)*(pos1[0]-pos2[0]) + AX(1)*(pos1[1]-pos2[1]) + AX(2)*(pos1[2]-pos2[2])',
+                 'XP': '(-LEN if PRJ < -LEN else (LEN if PRJ > LEN else PRJ))',
+                 'SQ': 'lambda t: (pos1[0]-pos2[0]-t*AX(0))*(pos1[0]-pos2[0]-t*AX(0)) + (pos1[1]-pos2[1]-t*AX(1))*(pos1[1]-pos2[1]-t*AX(1)) + (pos1[2]-pos2[2]-t*AX(2))*(pos1[2]-pos2[2]-t*AX(2))',
+                 'RR': 'size1[0] + size2[0]'},
+        'requires': {'unit_axis': 'AX(0)*AX(0) + AX(1)*AX(1) + AX(2)*AX(2) == 1', 'capsule': 'LEN >= 0',
+                     'radii': 'size1[0] >= 0 and size2[0] >= 0', 'reach': 'margin + RR >= 0'},
+        'ensures': {
+            'zero_or_one': 'result == 0 or result == 1',
+            # "the clamped projection is the nearest point of the axis segment", in two steps the solver can do separately:
+            # (i) along the unit axis the squared distance is the quadratic V2 - 2 t PRJ + t^2 (V2 = squared centre distance);
+            # (ii) over [-L, L] that quadratic is minimised at clip(PRJ, -L, L)  (pure real arithmetic in t, p, l)
+            'squared_distance_along_the_axis_is_a_quadratic': 'forall_real(lambda t: SQ(t) == SQ(0) - 2*t*PRJ + t*t)',
+            'quadratic_minimised/projection_inside': 'forall_real(lambda t, p: t*t - 2*t*p >= p*p - 2*p*p)',
+            'quadratic_minimised/projection_beyond_upper_end': 'forall_real(lambda t, p, l: implies(l >= 0 and -l <= t and t <= l and p > l, t*t - 2*t*p >= l*l - 2*l*p))',
+            'quadratic_minimised/projection_beyond_lower_end': 'forall_real(lambda t, p, l: implies(l >= 0 and -l <= t and t <= l and p < -l, t*t - 2*t*p >= l*l + 2*l*p))',
+            'reported_iff_the_segment_is_within_reach': '(result == 1) == (SQ(XP) <= (margin + RR) * (margin + RR))',
+            'dist_is_the_gap_between_the_two_surfaces': 'implies(result == 1, (con.dist + RR) * (con.dist + RR) == SQ(XP) and con.dist + RR >= 0)',
+        }, 'no_error': True},
 }
 
 
